@@ -21,6 +21,7 @@ TReset == /\ IsEvent("reset")
           /\ cap' = R.cfg.cap
 
 TCreate == IsEvent("Create") /\ R.res = CreateRes(R.k, R.sz) /\ Create(R.k, R.sz, R.c) /\ ObsOK
+TCreateBad == IsEvent("CreateBad") /\ R.res = CreateBadRes(R.sz) /\ CreateBad(R.sz) /\ ObsOK
 TOpen   == IsEvent("Open") /\ R.res = OpenRes(R.k, R.sc) /\ (R.res = "ok" => R.c = content[R.k])
                            /\ Open(R.k, R.sc) /\ ObsOK
 THas    == IsEvent("Has") /\ <<R.instore, R.inscope>> = HasRes(R.k, R.sc) /\ Read /\ ObsOK
@@ -41,7 +42,7 @@ TClean  == /\ IsEvent("Clean") /\ R.res = "ok"
            /\ ObsOK
            /\ R.util = (used' * 100) \div cap
 
-TraceNext == TReset \/ TCreate \/ TOpen \/ THas \/ TStat \/ TList \/ TMark \/ TDelete \/ TBan \/ TUnban
+TraceNext == TReset \/ TCreate \/ TCreateBad \/ TOpen \/ THas \/ TStat \/ TList \/ TMark \/ TDelete \/ TBan \/ TUnban
              \/ TSetMd \/ TDelMd \/ TGetMd \/ TListMd \/ TClean
 TraceSpec == TraceInit /\ [][TraceNext]_tvars
 
